@@ -163,6 +163,26 @@ func (fr *frame) loopHead(l *Loop, entry *state, phiIn map[*ssa.Phi]T) *state {
 			}
 		}
 	}
+	// loop-level frame: "modifies x, y" — only these (and memory allocated inside the loop) change
+	var lmod *loopMod
+	if lc != nil && len(lc.Modifies) > 0 {
+		env := fr.specEnv(entry, nil)
+		env.phiOverride = phiIn
+		env.atBlock = l.Header
+		lmod = &loopMod{next: entry.next}
+		for _, m := range lc.Modifies {
+			me, err := parseSpec(m)
+			if err != nil {
+				stale("bad loop modifies item %q: %v", m, err)
+			}
+			mv := env.eval(me)
+			lmod.refs = append(lmod.refs, vc.define("lmod", "Int", env.refOf(mv)))
+		}
+		if fr.loopMods == nil {
+			fr.loopMods = map[*Loop]*loopMod{}
+		}
+		fr.loopMods[l] = lmod
+	}
 	// 2. havoc
 	st := entry.clone()
 	cells, heaps, all, allocs := fr.writeSets(l)
@@ -222,11 +242,40 @@ func (fr *frame) loopHead(l *Loop, entry *state, phiIn map[*ssa.Phi]T) *state {
 				cond += fmt.Sprintf(" (not (= r %s))", m)
 			}
 			cond += ")"
-			if !fr.modAll {
+			if lmod != nil {
+				cond = fmt.Sprintf("(and (<= 0 r) (< r %s)", lmod.next)
+				for _, m := range lmod.refs {
+					cond += fmt.Sprintf(" (not (= r %s))", m)
+				}
+				cond += ")"
+			}
+			if !fr.modAll || lmod != nil {
 				vc.assume("true", fmt.Sprintf("(forall ((r Int)) (! (=> %s (= (select %s r) (select %s r))) :pattern ((select %s r))))", cond, n, oldT, n))
 				scond := strings.ReplaceAll(cond, " r)", " (s_arr s))")
 				scond = strings.ReplaceAll(scond, " r ", " (s_arr s) ")
 				vc.atOthersUnchanged(h, n, oldT, scond)
+				mcond := strings.ReplaceAll(cond, " r)", " m)")
+				mcond = strings.ReplaceAll(mcond, " r ", " m ")
+				vc.mapOthersUnchanged(h, n, oldT, mcond)
+			}
+		}
+	}
+	// go/ssa lowers "for i := range s" to a hidden index phi [-1, phi+1]: it never drops below -1
+	for _, p := range phis {
+		if p.Comment == "rangeindex" {
+			vc.assume(st.reach, fmt.Sprintf("(>= %s (- 1))", head[p].S))
+		}
+	}
+	// loop-carried references were allocated before this iteration
+	for _, p := range phis {
+		for _, f := range vc.allocFacts(head[p], st.next, 0) {
+			vc.assume(st.reach, f)
+		}
+	}
+	for _, c := range cks {
+		if v, ok := st.cells[c]; ok {
+			for _, f := range vc.allocFacts(v, st.next, 0) {
+				vc.assume(st.reach, f)
 			}
 		}
 	}
